@@ -408,6 +408,18 @@ func (c *VCtx) translate(sc *Scope, e Expr) Val {
 				guards = append(guards, And(Ge(t, IntLit(0)), Le(t, IntLit(255))))
 			}
 		}
+		if x.Forall && c.exemptFresh != nil {
+			// the invariant is not demanded of objects this invocation created and has not yet made reachable
+			ex := c.exemptFresh
+			c.exemptFresh = nil
+			for _, b := range x.Vars {
+				if t, ok := n.vars[b.Name].(*Term); ok && t.Sort == SRef {
+					for _, r := range ex {
+						guards = append(guards, Not(Eq(t, r)))
+					}
+				}
+			}
+		}
 		body := c.translateBool(n, x.Body)
 		q := "forall"
 		if !x.Forall {
@@ -711,11 +723,19 @@ func (c *VCtx) translateCall(sc *Scope, x *ECall) Val {
 		return And(parts...)
 	case "csold":
 		// csold(e): e in the state right after this invocation's most recent lock acquisition
-		if c.lastCSEntry == nil {
+		// (frame-relative: the critical section entered by the function the clause belongs to, or by its nearest caller)
+		entry := c.lastCSEntry
+		for f := sc.fr; f != nil; f = f.parent {
+			if f.csEntry != nil {
+				entry = f.csEntry
+				break
+			}
+		}
+		if entry == nil {
 			unsup("csold used but no critical section has been entered")
 		}
 		n := *sc
-		n.st, n.inOld = c.lastCSEntry, false
+		n.st, n.inOld = entry, false
 		return c.translate(&n, x.Args[0])
 	case "card":
 		return T(SInt, app("card", arg(0)))
@@ -761,6 +781,15 @@ func (c *VCtx) translateCall(sc *Scope, x *ECall) Val {
 	case "abool":
 		h := c.heap(st, "F:sync/atomic.Bool.v", ArrSort(SRef, SInt))
 		return Not(Eq(Select(h, arg(0)), IntLit(0)))
+	case "resolved":
+		return c.isResolved(st, arg(0))
+	case "reserr":
+		return c.resErr(arg(0))
+	case "resval":
+		return c.resVal(arg(0), SAny)
+	case "cellany":
+		h := c.heap(st, cellHeapName(SAny), ArrSort(SRef, SAny))
+		return Select(h, arg(0))
 	case "cellval":
 		// cellval(p): the reference stored in the variable that p points to
 		h := c.heap(st, cellHeapName(SRef), ArrSort(SRef, SRef))
